@@ -697,8 +697,9 @@ def run(ctx):
     scipy_table(ctx)
     large_sparse_family(ctx)
     from enspara.msm import builders as _b
-    ctx.note('builders_site', {k: v for k, v in _c12.site_probe(_b).items()
-                               if k in ('priorMatrixToArray', 'transposeHalfIntLiteral', 'transposeTotalSum')})
+    gen_site = ctx.driver([{'op': 'C04.site'}])[0]['ok']
+    ctx.note('builders_site', _c12.check_site_facts(
+        ctx, _b, gen_site, ('priorMatrixToArray', 'transposeHalfIntLiteral', 'transposeTotalSum')))
     nmat = ctx.n(36, 300)
     kinds = ['int-dense', 'int-sparse', 'zero-diag', 'asym', 'metastable', 'symmetric', 'real']
     for t in range(nmat):
